@@ -269,7 +269,19 @@ class World:
         return 'main-unit'
 
     # ---------------------------------------------------------------- one program
-    def run_program(self):
+    def run_program(self, prog_seed=None):
+        """one generated program; with prog_seed the program is reproducible on its own (replay)"""
+        if prog_seed is not None:
+            self.rng = random.Random(f'C09/program/{prog_seed}')
+        nviol = set(self.r.violations)
+        try:
+            self._run_program()
+        finally:
+            for k, v in self.r.violations.items():
+                if k not in nviol and isinstance(v['case'], dict):
+                    v['case']['prog_seed'] = prog_seed
+
+    def _run_program(self):
         r, rng = self.r, self.rng
         classes = {}      # label -> class
         insts = {}        # label -> module
@@ -438,13 +450,17 @@ def run_shard(shard):
     rng = random.Random(f'C09/{shard["seed"]}/{shard["idx"]}')
     w = World(r, rng)
     for i in range(shard['n']):
-        w.run_program()
+        w.run_program(rng.randrange(1 << 40))
     return r.result()
 
 
 def replay(case):
     r = rec.Recorder()
     w = World(r, random.Random(11))
-    for i in range(300):
-        w.run_program()
+    if case.get('prog_seed') is not None:
+        w.run_program(case['prog_seed'])          # the recorded program itself
+        r.count('replayed_recorded_program')
+    else:
+        for i in range(300):                       # witnesses recorded before programs were seeded individually
+            w.run_program(i)
     return r.result()
